@@ -33,6 +33,15 @@ def gen_cases(ctx):
             cases.append(("named", nm, tuple(params), text))
         # single-argument call spelled as a one-element list: f(x,)
         cases.append(("pos", nm, ("1",), nm + "(1,)"))
+        # every argument kind as the only argument (a parenthesised list is ONE argument)
+        for a in ARGS:
+            cases.append(("pos", nm, (a,), nm + "(" + a + ")"))
+            cases.append(("pos", nm, (a,), nm + "( " + a + " )"))
+    from odata_query import grammar
+    pair_names = list(grammar.ODATA_FUNCTIONS.keys()) + ["f.g", "geo.x.length"] if ctx.thorough else ["concat", "length", "substring", "now", "geo.distance", "f.g", "contains"]
+    for nm in pair_names:
+        for a, b in itertools.product(ARGS, repeat=2):
+            cases.append(("pos", nm, (a, b), nm + "(" + a + ", " + b + ")"))
     # mixing positional and named is a syntax error
     for nm in ["f.g", "concat"]:
         cases.append(("mixed", nm, (), nm + "(1, x=2)"))
